@@ -13,6 +13,9 @@ def obligations(tier):
                  funcs=["cbor_stream_decode"], desc="Layer 1: cbor_stream_decode on every exact-size buffer of <= %d symbolic bytes with all CBMC memory/UB checks" % maxn,
                  bounds="all buffers <= %d bytes" % maxn))
     fam = [s for s in tc.family(tier) if not (s["in_S"] and s["nheads"] == s["k"] and s["status"] == "open")]
+    if tier == "thorough":
+        # pointer-checked runs cost 3-5 s per case: of the 4-head sequences keep the accepted ones (the post-load pipeline only runs on those) and every 4th rejected one
+        fam = [s for i, s in enumerate(fam) if not (s["in_S"] and s["nheads"] == 4) or s["status"] == "complete" or i % 4 == 0]
     o += tc.batch_obligations("load_safety", fam, "h_load.c", {"P_SAFETY": 1}, variant="dbg", truncations=True, weight_cap=36, max_cases=5, funcs=F, timeout=900,
                               desc="cbor_load on the skeleton and on EVERY truncation of it (exact-size heap block, freed right after the call); on success describe/size/serialize(symbolic n)/copy/release; "
                                    "CBMC object-bounds, NULL, use-after-free, double-free, leak, signed-overflow, shift checks + live CBOR_ASSERT; unwinding assertions = termination")
